@@ -31,18 +31,33 @@ class BodyBase(BaseException):
     """custom BaseException subclass raised by the simulated caller"""
 
 
-def _exc_classes(lib):
-    return {"ValueError": ValueError, "KeyError": KeyError, "BodyError": BodyError,
-            "KeyboardInterrupt": KeyboardInterrupt, "SystemExit": SystemExit,
-            "BodyBase": BodyBase, "GeneratorExit": GeneratorExit,
-            "StopIteration": StopIteration, "RuntimeError": RuntimeError,
-            "CancelMutation": lib.simfile.CancelMutation}
+def _exc_makers(lib):
+    """name -> factory of the exception object the simulated caller raises.  Besides
+    the classes, the *value* matters to an implementation that looks inside: an exit
+    status of 0 or None, an OSError / UnicodeError like the ones saving itself can meet."""
+    import errno
+    return {"ValueError": lambda: ValueError("body-raise"), "KeyError": lambda: KeyError("body-raise"),
+            "BodyError": lambda: BodyError("body-raise"),
+            "KeyboardInterrupt": lambda: KeyboardInterrupt("body-raise"),
+            "SystemExit": lambda: SystemExit("body-raise"),
+            "SystemExit0": lambda: SystemExit(0), "SystemExitNone": lambda: SystemExit(),
+            "SystemExit1": lambda: SystemExit(1),
+            "BodyBase": lambda: BodyBase("body-raise"), "GeneratorExit": lambda: GeneratorExit("body-raise"),
+            "StopIteration": lambda: StopIteration("body-raise"),
+            "RuntimeError": lambda: RuntimeError("body-raise"),
+            "OSError": lambda: OSError(errno.ENOSPC, "body-raise"),
+            "FileNotFoundError": lambda: FileNotFoundError(errno.ENOENT, "body-raise"),
+            "UnicodeEncodeError": lambda: UnicodeEncodeError("ascii", "\u3042", 0, 1, "body-raise"),
+            "UnicodeDecodeError": lambda: UnicodeDecodeError("utf-8", b"\xff", 0, 1, "body-raise"),
+            "CancelMutation": lambda: lib.simfile.CancelMutation("body-raise")}
 
 
 # StopIteration / RuntimeError / GeneratorExit are the classes a generator-based context
 # manager treats specially (PEP 479); they are Exception / BaseException subclasses like any other
-EXC_NAMES = ["ValueError", "KeyError", "BodyError", "KeyboardInterrupt", "SystemExit", "BodyBase",
-             "StopIteration", "RuntimeError", "GeneratorExit", "CancelMutation"]
+EXC_NAMES = ["ValueError", "KeyError", "BodyError", "KeyboardInterrupt", "SystemExit", "SystemExit0",
+             "SystemExitNone", "SystemExit1", "BodyBase", "StopIteration", "RuntimeError",
+             "GeneratorExit", "OSError", "FileNotFoundError", "UnicodeEncodeError",
+             "UnicodeDecodeError", "CancelMutation"]
 ERRNO_NAMES = ["EIO", "ENOSPC", "EACCES"]
 
 
@@ -175,6 +190,15 @@ def generate(prop, rng, run, tier):
         cfg["short_writes"] = rng.randint(1, 10 ** 6)
     if rng.random() < 0.3:
         cfg["spelling"] = rng.choice(["dslash", "dot", "rel"])
+    if facade in NATIVE_LIKE and rng.random() < 0.08:
+        # the files are named through a symbolic link to a directory followed by '..': the
+        # OS follows the link first, so '..' is the parent of the link's *target* (/Pack);
+        # collapsing 'lnk/..' lexically names /Elsewhere/... instead
+        cfg["spelling"] = "symlink"
+        sc["world"]["symlinks"] = {"/Elsewhere/lnk": "/Pack/Empty"}
+        sc["world"]["dirs"].append("/Elsewhere")
+        if rng.random() < 0.5:
+            sc["world"]["dirs"].append("/Elsewhere/" + song)     # the lexical reading exists too
     if rng.random() < 0.3:
         cfg["raw_readers"] = True     # binary read streams of the PyFilesystem are raw (short reads)
     if rng.random() < 0.15:
@@ -256,6 +280,8 @@ def _spell(path, how):
         return path[:i] + "/./" + path[i + 1:]
     if how == "rel":
         return path.lstrip("/")
+    if how == "symlink" and path.startswith("/Pack/"):
+        return "/Elsewhere/lnk/../" + path[len("/Pack/"):]
     return path
 
 
@@ -280,6 +306,8 @@ def run_once(sc, fault=None, body_raise=None, spoil=None, noop_on=None, hooks=No
     o.invariant = None
     o.external = None
     spelling = cfg.get("spelling")
+    if spelling == "symlink" and (cfg["facade"] not in NATIVE_LIKE or not sc["world"].get("symlinks")):
+        spelling = None       # (a shrunk scenario: links exist on the native path only)
     inp = cfg["input"] if noop_on is None else noop_on
     out = cfg.get("output") if noop_on is None else None
     bak = cfg.get("backup") if noop_on is None else None
@@ -296,7 +324,7 @@ def run_once(sc, fault=None, body_raise=None, spoil=None, noop_on=None, hooks=No
     if hooks:
         disk.on_open_w = hooks.get("on_open_w")
     strings = ops.Strings()
-    excs = _exc_classes(lib)
+    excs = _exc_makers(lib)
     edit = sc["ops"] if noop_on is None else []
     model = None
     with Facade(cfg["facade"], disk) as fa:
@@ -313,7 +341,8 @@ def run_once(sc, fault=None, body_raise=None, spoil=None, noop_on=None, hooks=No
                 fmt = model.kind
                 for i, op in enumerate(edit):
                     if body_raise is not None and body_raise[0] == i:
-                        o.raised_obj = excs[body_raise[1]]("body-raise")
+                        o.raised_obj = excs[body_raise[1]]()
+                        o.raised_args = o.raised_obj.args
                         raise o.raised_obj
                     if op["op"] == "external_write":
                         if hasattr(disk, "faults"):          # simulated disk only
@@ -324,7 +353,8 @@ def run_once(sc, fault=None, body_raise=None, spoil=None, noop_on=None, hooks=No
                     if res is not None and res[0] != res[1] and o.op_mismatch is None:
                         o.op_mismatch = (i, op, res)
                 if body_raise is not None and body_raise[0] >= len(edit):
-                    o.raised_obj = excs[body_raise[1]]("body-raise")
+                    o.raised_obj = excs[body_raise[1]]()
+                    o.raised_args = o.raised_obj.args
                     raise o.raised_obj
                 if spoil is not None:
                     _apply_spoil(sf, model, spoil, lib)
@@ -527,7 +557,7 @@ def check_c05(sc, res):
         dsc["config"] = dict(cfg, explicit_encoding=None)
         dfiles = dict(sc["world"]["files"])
         dfiles[cfg["input"]] = cfg["decoy"]
-        dsc["world"] = {"dirs": sc["world"]["dirs"], "files": dfiles}
+        dsc["world"] = dict(sc["world"], files=dfiles)
         denc, dkind, dexpect = _expect_entry(dsc, ddata, _tf(cfg))
         if not (isinstance(dexpect, LoadError) and dexpect.exc == "ExcludedTrailingBackslash"):
             _check_open(dsc, res, ddata, denc, dkind, dexpect)
@@ -664,7 +694,8 @@ def check_c05(sc, res):
         try_list = cfg.get("try_encodings") or DEFAULT_ENCODINGS
         enc2 = ref_encoding(written, try_list)
         sc2 = dict(sc)
-        sc2["world"] = {"dirs": sorted(o.after[1]), "files": {p: b.hex() for p, b in after_files.items()}}
+        sc2["world"] = {"dirs": sorted(o.after[1]), "files": {p: b.hex() for p, b in after_files.items()},
+                        "symlinks": sc["world"].get("symlinks")}
         # opening what was just written reports the first encoding that decodes *it*
         # (nothing remembered from the earlier opens of this name) and loads the exit simfile
         sc3 = dict(sc2)
@@ -902,7 +933,7 @@ def check_c06(sc, res):
             if o.escaped is not o.raised_obj:
                 res.violate(P, "body-exception-replaced", escaped=repr(o.escaped), **extra)
                 return
-            if o.escaped.args != ("body-raise",) or o.escaped.__cause__ is not None:
+            if o.escaped.args != o.raised_args or o.escaped.__cause__ is not None:
                 res.violate(P, "body-exception-altered", args=repr(o.escaped.args),
                             cause=repr(o.escaped.__cause__), **extra)
                 return
@@ -977,10 +1008,11 @@ def check_c06(sc, res):
         if bak_path and call_path == out_path and not load_phase:
             res.stats["probe:fault-after-backup-complete"] += 1
         if bak_path and call_path == bak_path:
+            # (A fault on a call that names the backup does not by itself mean the backup is
+            # unfinished - a tolerated failure of a stat() made to copy permissions, say.  What
+            # the property demands is judged by generic_after and by the invariant at the moment
+            # the output is opened: input changed => the backup is complete.)
             res.stats["probe:fault-while-writing-backup"] += 1
-            if files.get(inp) not in (data, o.external):
-                res.violate(P, "input-touched-before-backup-finished", **extra)
-                return
         res.note("fault", shape, fault["kind"], fault.get("errno"), k)
         res.log("fault", label, o.disk.log_digest(), repr(type(o.escaped)))
 
